@@ -218,4 +218,24 @@ def exact_scale(s):
 
 
 def replay_known(ctx, k):
+    """Replays of the listed witnesses that the random search may or may not reach with a given seed."""
+    from pyubx2 import SET, UBXMessage
+    if k["id"] == "KF-C03-small-scale":
+        # MGA-GPS-EPH (SET): af2 is [I1, 2**-55]; raw 1 parses to 0.0 (12-decimal rounding) and rebuilds as 0
+        with impl.quiet():
+            m0 = UBXMessage("MGA", "MGA-GPS-EPH", SET, type=1, af2=2**-55)
+            p = bytearray(m0.payload)
+            names = [a for a in m0.__dict__ if not a.startswith("_")]
+            # locate af2's byte: the only byte that the keyword changes relative to the nominal message
+            base = UBXMessage("MGA", "MGA-GPS-EPH", SET, type=1).payload
+            pos = [i for i in range(len(base)) if base[i] != p[i]]
+            if len(pos) != 1:
+                return None
+            raw = bytearray(base)
+            raw[pos[0]] = 1
+            m = UBXMessage("MGA", "MGA-GPS-EPH", SET, payload=bytes(raw))
+            kw = {a: getattr(m, a) for a in names}
+            m2 = UBXMessage("MGA", "MGA-GPS-EPH", SET, **kw)
+        if m2.payload != bytes(raw):
+            return {"what": "parsed-values-do-not-rebuild", "observed": "af2 raw 1 -> %r -> raw %d" % (m.af2, m2.payload[pos[0]])}
     return None
